@@ -28,6 +28,7 @@ type C07Op struct {
 	Files  []int  `json:"files,omitempty"` // delivery list: indices into Files, may repeat or omit
 	Root   int    `json:"root,omitempty"`  // for call/rcall: index into the model's method list (mod len)
 	Lookup bool   `json:"lookup,omitempty"`
+	Model  int    `json:"model,omitempty"` // for call/rcall: 0 = the project's own model, k>0 = synthetic model k-1
 }
 
 type C07Proc struct {
@@ -39,6 +40,9 @@ type C07Scenario struct {
 	Source string    `json:"source"` // generated | fixtures
 	Files  []SrcFile `json:"files"`
 	Procs  []C07Proc `json:"procs"`
+	// Models: synthetic call models (as in C03/C04) for the "generate a graph twice" clause; the
+	// project's own model rarely has deep caller chains
+	Models [][]MClass `json:"models,omitempty"`
 }
 
 type C07 struct{}
@@ -102,7 +106,8 @@ func genHistory(t *tape.Tape, nFiles int, thorough bool, passes []string) []C07P
 			op := C07Op{Pass: passes[t.Pick(len(passes))]}
 			if op.Pass == "call" || op.Pass == "rcall" {
 				op.Root = t.Pick(64)
-				op.Lookup = op.Pass == "call" && t.Bool(1, 3)
+				op.Lookup = op.Pass == "call" && t.Bool(1, 2)
+				op.Model = t.Pick(3)
 			} else {
 				// delivery list: a permutation, then drops, then duplications
 				perm := t.Perm(nFiles)
@@ -156,7 +161,10 @@ func (C07) Generate(t *tape.Tape, tier string) interface{} {
 			sc.Files = append(sc.Files, SrcFile{ID: f.ID, Path: f.Path, Text: f.Text})
 		}
 	}
-	sc.Procs = genHistory(t, len(sc.Files), thorough, []string{"ident", "full", "bs", "api", "ident", "full", "bs", "api", "call", "rcall"})
+	sc.Procs = genHistory(t, len(sc.Files), thorough, []string{"ident", "full", "bs", "api", "ident", "full", "bs", "api", "call", "rcall", "call", "rcall"})
+	for i := 0; i < 2; i++ {
+		sc.Models = append(sc.Models, genModel(t, thorough))
+	}
 	return sc
 }
 
@@ -555,15 +563,26 @@ func (C07) Run(ctx *sim.RunCtx, data json.RawMessage) (*sim.Outcome, error) {
 	}
 	sort.Strings(methods)
 	graphRef := map[string]string{}
+	modelFiles := []string{depsFile}
+	modelMethods := [][]string{methods}
+	for i, m := range sc.Models {
+		mp := filepath.Join(ctx.Dir, fmt.Sprintf("synthetic%d.json", i))
+		if err := writeJSON(mp, m); err != nil {
+			return nil, sim.Harness("%v", err)
+		}
+		modelFiles = append(modelFiles, mp)
+		modelMethods = append(modelMethods, declaredMethods(m))
+	}
 	graphOf := func(op C07Op) (sim.Op, string) {
+		mi := op.Model % len(modelFiles)
 		root := "none.Such.method"
-		if len(methods) > 0 {
-			root = methods[op.Root%len(methods)]
+		if ms := modelMethods[mi]; len(ms) > 0 {
+			root = ms[op.Root%len(ms)]
 		}
 		if op.Pass == "call" {
-			return sim.Op{Op: "call", Args: map[string]interface{}{"root": root, "model": depsFile, "lookup": op.Lookup}}, fmt.Sprintf("call|%s|%v", root, op.Lookup)
+			return sim.Op{Op: "call", Args: map[string]interface{}{"root": root, "model": modelFiles[mi], "lookup": op.Lookup}}, fmt.Sprintf("call|%d|%s|%v", mi, root, op.Lookup)
 		}
-		return sim.Op{Op: "rcall", Args: map[string]interface{}{"target": root, "model": depsFile}}, "rcall|" + root
+		return sim.Op{Op: "rcall", Args: map[string]interface{}{"target": root, "model": modelFiles[mi]}}, fmt.Sprintf("rcall|%d|%s", mi, root)
 	}
 
 	seen := map[string]bool{}
